@@ -530,7 +530,7 @@ def new_lines(name, facts):
     # the NUMBER of constructor parameters (which fields become parameters under the `new` marks); their spelling is C02's subject
     return {"nparams:" + name: str(len(f["params"])), "gi:" + name: csv(f["gi"]), "si:" + name: csv(f["si"]),
             "gl:" + name: csv(f["gl"]), "sl:" + name: csv(f["sl"]), "json:" + name: "true" if f["json"] else "false",
-            "jget:" + name: csv(f["jget"]), "jset:" + name: csv(f["jset"]), "jexp:" + name: csv(f["jexp"])}
+            "jget:" + name: csv(sorted(f["jget"])), "jset:" + name: csv(sorted(f["jset"])), "jexp:" + name: csv(sorted(f["jexp"]))}
 
 
 def map_lines(name, f):
